@@ -169,3 +169,145 @@ Theorem c16_blocked_only_by_running_request : forall d s progs sched i t l r,
   j <> i /\ exists tj, nth_error (threads w) j = Some tj /\ held tj = Some l /\
     In (Unlock l) (prog tj) /\ (forall l' r', prog tj <> Lock l' :: r').
 Proof. exact blocked_by_runnable. Qed.
+
+(* ---- a one-time value is not honoured again after an overlapping pair has been answered ---------------
+   Three requests of one user: request 0 = a U2F sign request (a new challenge is stored), request 1 = the
+   sign response that answers the pending challenge, request 2 = the SAME signed answer presented again.
+   Requests 0 and 1 overlap under ANY schedule at single-action granularity (every interleaving of their
+   actions, critical sections included); request 2 is given any number of steps only after both have been
+   answered.  Then the two presentations are never both honoured.  (All schedules: the worlds reachable
+   without scheduling request 2 form a finite set closed under `step`; the continuation of request 2 is
+   computed on every member, Proofs/ConcReplay.v.) *)
+From KM Require Import Proofs.ConcReplay.
+
+Theorem c16_u2f_no_replay_after_overlap : forall (s1 : list nat) (n : nat),
+  Forall (fun i => (i < 2)%nat) s1 ->
+  let w1 := run (init_world ex_db [(M_localAuth, 1, 3)]
+                   [handler (HU2fSignReq 1 4); handler (HU2fSignResp 1 3); handler (HU2fSignResp 1 3)]) s1 in
+  answered w1 0 = true -> answered w1 1 = true ->
+  let w2 := run w1 (repeat 2%nat n) in
+  ~ (resp_at w2 1 = Some 200 /\ resp_at w2 2 = Some 200).
+Proof. exact u2f_no_replay_after_overlap. Qed.
+
+(* the same for the schedules the harness replays (one entry = from one parking point — storage operation
+   or Lock — to the next) *)
+Theorem c16_u2f_no_replay_after_overlap_seg : forall (s1 : list nat) (n : nat),
+  Forall (fun i => (i < 2)%nat) s1 ->
+  let w1 := run_seg (init_world ex_db [(M_localAuth, 1, 3)]
+                       [handler (HU2fSignReq 1 4); handler (HU2fSignResp 1 3); handler (HU2fSignResp 1 3)]) s1 in
+  answered w1 0 = true -> answered w1 1 = true ->
+  let w2 := run w1 (repeat 2%nat n) in
+  ~ (resp_at w2 1 = Some 200 /\ resp_at w2 2 = Some 200).
+Proof. exact u2f_no_replay_after_overlap_seg. Qed.
+
+(* ... in the form of one replayed schedule: entries of requests 0 and 1, then entries of request 2 only *)
+Theorem c16_u2f_no_replay_replayed_schedule : forall (s1 : list nat) (k : nat),
+  Forall (fun i => (i < 2)%nat) s1 ->
+  let w0 := init_world ex_db [(M_localAuth, 1, 3)]
+              [handler (HU2fSignReq 1 4); handler (HU2fSignResp 1 3); handler (HU2fSignResp 1 3)] in
+  let w1 := run_seg w0 s1 in
+  answered w1 0 = true -> answered w1 1 = true ->
+  let w2 := run_seg w0 (s1 ++ repeat 2%nat k) in
+  ~ (resp_at w2 1 = Some 200 /\ resp_at w2 2 = Some 200).
+Proof. exact u2f_no_replay_replayed_schedule. Qed.
+
+(* FALSE for a sign request that hands the pending challenge out again, looked up in one critical section
+   and stored in a second one (NOT the code): the lookup finds the pending challenge, the sign response
+   verifies the answer and deletes the challenge, the request writes the consumed challenge back; the same
+   answer presented after both were answered is honoured again — at single-action granularity and for a
+   schedule the harness can replay — while in NO sequential order of the three are both presentations honoured *)
+Theorem c16_u2f_reissue_replay_refuted :
+  let w0 := init_world ex_db [(M_localAuth, 1, 3)]
+              [u2f_signreq_reissue 1 4; handler (HU2fSignResp 1 3); handler (HU2fSignResp 1 3)] in
+  (exists s1 n, Forall (fun i => (i < 2)%nat) s1 /\
+     let w1 := run w0 s1 in
+     answered w1 0 = true /\ answered w1 1 = true /\ resp_at w1 2 = None /\
+     let w2 := run w1 (repeat 2%nat n) in
+     resp_at w2 1 = Some 200 /\ resp_at w2 2 = Some 200) /\
+  (exists s1 s2, Forall (fun i => (i < 2)%nat) s1 /\ Forall (fun i => i = 2%nat) s2 /\
+     let w1 := run_seg w0 s1 in
+     answered w1 0 = true /\ answered w1 1 = true /\ resp_at w1 2 = None /\
+     let w2 := fold_left seg s2 w1 in
+     resp_at w2 1 = Some 200 /\ resp_at w2 2 = Some 200) /\
+  forallb (fun o => let '(r, _, _) := o in negb (oN_eq (nth 1 r None) (Some 200) && oN_eq (nth 2 r None) (Some 200)))
+          (serial_outcomes [1; 2] w0) = true.
+Proof. exact reissue_replay. Qed.
+
+(* that variant respects the lock discipline (c16_lock_discipline applies to it: no data race) — what it
+   breaks is atomicity of lookup-and-store ... *)
+Theorem c16_reissue_disciplined : forall u chal, disciplined (u2f_signreq_reissue u chal) = true.
+Proof. exact reissue_disciplined. Qed.
+
+(* ... and it cannot be told from the code when requests are pre-empted at storage operations only: there is
+   no storage operation between the lookup and the store *)
+Theorem c16_reissue_invisible_at_storage_granularity : forall (s1 : list nat) (n : nat),
+  Forall (fun i => (i < 2)%nat) s1 ->
+  let w1 := run_sseg (init_world ex_db [(M_localAuth, 1, 3)]
+                        [u2f_signreq_reissue 1 4; handler (HU2fSignResp 1 3); handler (HU2fSignResp 1 3)]) s1 in
+  answered w1 0 = true -> answered w1 1 = true ->
+  let w2 := run w1 (repeat 2%nat n) in
+  ~ (resp_at w2 1 = Some 200 /\ resp_at w2 2 = Some 200).
+Proof. exact reissue_invisible_at_storage_granularity. Qed.
+
+(* the other one-time values, same shape: a bootstrap OTP presented while a new one is generated for the
+   user, then presented again; an OAuth2 state parameter whose callback runs while another login is parked,
+   then the callback again *)
+Theorem c16_boot_no_replay_after_overlap : forall (s1 : list nat) (n : nat),
+  Forall (fun i => (i < 2)%nat) s1 ->
+  let w1 := run (init_world ex_db [] [handler (HGenBoot 2 9); handler (HBootAuth 2 7); handler (HBootAuth 2 7)]) s1 in
+  answered w1 0 = true -> answered w1 1 = true ->
+  let w2 := run w1 (repeat 2%nat n) in
+  ~ (resp_at w2 1 = Some 200 /\ resp_at w2 2 = Some 200).
+Proof. exact boot_no_replay_after_overlap. Qed.
+
+Theorem c16_oauth_no_replay_after_overlap : forall (s1 : list nat) (n : nat),
+  Forall (fun i => (i < 2)%nat) s1 ->
+  let w1 := run (init_world [] [(M_pendingOauth2, 9, 5)]
+                   [handler (HOauthBegin 8 6); handler (HOauthCallback 9 5); handler (HOauthCallback 9 5)]) s1 in
+  answered w1 0 = true -> answered w1 1 = true ->
+  let w2 := run w1 (repeat 2%nat n) in
+  ~ (resp_at w2 1 = Some 200 /\ resp_at w2 2 = Some 200).
+Proof. exact oauth_no_replay_after_overlap. Qed.
+
+(* ------------------------------------------------------------------ readers (round 4) *)
+From KM Require Import Proofs.ConcReader.
+
+(* A load returns the value the store holds at one instant between its call and its return - the instant of its
+   single step - and touches nothing else: store, maps, mutexes, the log of saves and every other request are
+   unchanged; of the loading request only the register (and the program counter) changes. *)
+Theorem c16_load_linearizable : forall w i t u p,
+  nth_error (threads w) i = Some t -> prog t = Load u :: p ->
+  let w' := step w i in
+  store w' = store w /\ mem w' = mem w /\ owner w' = owner w /\ saved w' = saved w /\
+  (forall j, j <> i -> nth_error (threads w') j = nth_error (threads w) j) /\
+  exists t', nth_error (threads w') i = Some t' /\ reg t' = Some (u, get u (store w)) /\ prog t' = p /\
+             resp t' = resp t /\ held t' = held t /\ mreg t' = mreg t /\ alive t' = alive t.
+Proof. exact load_linearizable. Qed.
+
+(* Nothing of a pure reader outlives it: for ANY pool, ANY initial world and ANY schedule, if request r only
+   loads, tests and answers (`reader`), then the store, the maps, the mutex table, the log of saves and the
+   state of every other request (its answer included) are exactly those of the same schedule with r's steps
+   erased.  In particular a reader cannot undo an acknowledged write, and no later request sees anything of it. *)
+Theorem c16_reader_leaves_no_trace : forall w r t s,
+  nth_error (threads w) r = Some t -> reader (prog t) = true -> held t = None ->
+  let w1 := run w s in let w2 := run w (erase r s) in
+  store w1 = store w2 /\ mem w1 = mem w2 /\ owner w1 = owner w2 /\ saved w1 = saved w2 /\
+  forall j, j <> r -> nth_error (threads w1) j = nth_error (threads w2) j.
+Proof. exact reader_leaves_no_trace. Qed.
+
+(* the profile page and the password login (for a user with tokens) are such readers *)
+Theorem c16_view_login_are_readers : forall u,
+  reader (handler (HView u)) = true /\ reader (handler (HLogin u)) = true.
+Proof. exact view_login_readers. Qed.
+
+(* FALSE of a reader that keeps the fetched row where later requests answer from (NOT the code): the reader
+   fetches, a disable of token 1 runs from start to acknowledgement, the reader returns and plants the row it
+   fetched; a later rename of token 2 is acknowledged - and token 1 is enabled again; no sequential order of the
+   three gives this.  Such a request is not a `reader`. *)
+Theorem c16_planting_reader_refuted :
+  exists sched, let w := run plant_w0 sched in
+    map resp (threads w) = [Some 200; Some 200; Some 200] /\
+    get 1 (store w) = Some {| toks := [tk 1 11; {| t_idx := 2; t_enabled := true; t_name := 22 |}]; botp := None; last_totp := 0 |} /\
+    serializable_outcome [1; 2] plant_w0 w = false /\
+    reader (view_planting 1) = false.
+Proof. exact planting_reader_undoes_disable. Qed.
